@@ -4,7 +4,8 @@
    shipped_is_fresh / tables closed / terminals, rules, options equal are discharged by vm_compute
    (harness/c16.py). *)
 From Coq Require Import List Arith PArith Bool.
-From Measured Require Import Model.LR Proofs.LRFacts.
+From Coq Require Import NArith.
+From Measured Require Import Model.LR Proofs.LRFacts Model.Lex Proofs.LexFacts.
 Import ListNotations.
 
 (* For ANY scanner (the regex engine), ANY tree-building callbacks, any token/value/input types: if
@@ -40,3 +41,36 @@ Example C16_nonvacuous :
   states_related [2; 1; 0] [1%positive; 2%positive; 3%positive] ex_A ex_B = true /\ table_closed ex_A = true /\
   states_related [2; 1; 0] [1%positive; 2%positive; 3%positive] ex_A ex_C = false.
 Proof. repeat split; vm_compute; reflexivity. Qed.
+
+(* ---- at the level of the property's quantifier: every text ----
+   With the scanner, the tree builder and the driver of Model/Lex.v (the whole of Parser().parse from the characters to
+   the tree or the exception class): two artefacts that have the same terminal definitions in the same order, the same
+   ignore list, rules and tree options, and whose LALR tables are related by the state map, return the same result on
+   EVERY text.  The side conditions are evaluated on the two regenerated artefacts at every run (Gen_tables,
+   Gen_lexdata); the model itself is compared with the shipped parser text by text (the Run_text obligations). *)
+Theorem C16_every_text :
+  forall (order : list terminal) (ignore : list positive) (rules : list rule) (infos : list rinfo)
+         (filtered terminals : list positive) (end_sym : positive) (A B : table) (fl : list nat) (symbols : list positive),
+  states_related fl symbols A B = true -> table_closed A = true ->
+  forall s : text,
+    parse_text order ignore rules infos filtered terminals end_sym A s =
+    parse_text order ignore rules infos filtered terminals end_sym B s.
+Proof. exact parse_text_bisim. Qed.
+Print Assumptions C16_every_text.
+
+(* non-vacuity: the grammar  s: X+  over the alphabet {x, blank}, blanks ignored; "x x" parses to a node with two tokens,
+   "x!" fails in the scanner *)
+Definition ex_order : list terminal := [MkTerm 1%positive (RChar 120%N) true; MkTerm 9%positive (RPlus (RChar 32%N)) false].
+Definition ex_T : table :=
+  MkT [[(1%positive, Shift 1); (4%positive, Shift 2); (3%positive, Shift 3)];
+       [(1%positive, Reduce 0); (2%positive, Reduce 0)];
+       [(1%positive, Shift 4); (2%positive, Reduce 2)];
+       [];
+       [(1%positive, Reduce 1); (2%positive, Reduce 1)]] 0 3.
+Definition ex_rules : list rule := [MkRule 4%positive 1; MkRule 4%positive 2; MkRule 3%positive 1].
+Definition ex_infos : list rinfo := [MkRI 7%positive true false; MkRI 7%positive true false; MkRI 3%positive false false].
+Example C16_text_nonvacuous :
+  parse_text ex_order [9%positive] ex_rules ex_infos [] [1%positive] 2%positive ex_T [120%N; 32%N; 120%N]
+    = PTree (TNode 3%positive [TTok 1%positive [120%N]; TTok 1%positive [120%N]]) /\
+  parse_text ex_order [9%positive] ex_rules ex_infos [] [1%positive] 2%positive ex_T [120%N; 33%N] = PUnexpectedCharacters.
+Proof. split; vm_compute; reflexivity. Qed.
